@@ -180,8 +180,11 @@ func VHRecvQueued() {
 	if closed {
 		close(ch)
 	}
-	limit := vRange("limit", -1, vParam("C")+2)
 	full := vChoose("full", 2) == 1
+	limit := vInt("limit") // any int for RecvQueued; the buffer length for RecvQueuedFull
+	if full {
+		vAssume(vAnd(-1 <= limit, limit <= vParam("C")+2))
+	}
 	want := limit
 	if want < 0 {
 		want = 0
